@@ -220,6 +220,48 @@ def seeded(argv: List[str]) -> int:
     return 0 if not missed else 1
 
 
+def benign(argv: List[str]) -> int:
+    """Every stored behaviour-preserving refactor under /verif/benign must leave every quick check at exit 0."""
+    only = set(a for a in argv if a != "x")
+    repo = os.environ.get("VERIF_REPO", "/repo")
+    base = tempfile.mkdtemp(prefix="verif-benign-")
+    rows = []
+    pids = sorted(fw.registry())
+    try:
+        for d in sorted(glob.glob(os.path.join(VERIF, "benign", "*"))):
+            name = os.path.basename(d)
+            if only and name not in only:
+                continue
+            wt = os.path.join(base, name)
+            r = subprocess.run(["git", "-C", repo, "worktree", "add", "-q", "--detach", wt, "HEAD"], capture_output=True, text=True)
+            if r.returncode:
+                rows.append((name, "HARNESS", r.stderr[-200:]))
+                continue
+            try:
+                a = subprocess.run(["git", "-C", wt, "apply", os.path.join(d, "patch.diff")], capture_output=True, text=True)
+                if a.returncode:
+                    rows.append((name, "STALE", a.stderr[-200:]))
+                    continue
+                alarms = []
+                for pid in pids:
+                    env = dict(os.environ, VERIF_REPO=wt, VERIF_NO_EVIDENCE="1", VERIF_REPLAY_DIR=os.path.join(base, "replays"))
+                    p = subprocess.run([sys.executable, os.path.join(VERIF, "check"), pid, "quick"], capture_output=True,
+                                       text=True, env=env, timeout=1800)
+                    if p.returncode != 0:
+                        keys = [l.strip()[5:] for l in p.stdout.splitlines() if l.strip().startswith("key: ")]
+                        alarms.append((pid, p.returncode, keys[:2] or p.stdout[-200:]))
+                rows.append((name, "QUIET" if not alarms else "ALARM", str(alarms)))
+            finally:
+                subprocess.run(["git", "-C", repo, "worktree", "remove", "--force", wt], capture_output=True)
+            print("%-6s %-7s %s" % rows[-1], flush=True)
+    finally:
+        shutil.rmtree(base, ignore_errors=True)
+        subprocess.run(["git", "-C", repo, "worktree", "prune"], capture_output=True)
+    bad = [r for r in rows if r[1] != "QUIET"]
+    print("selftest-benign: %d refactors, %d raise no alarm, %d do" % (len(rows), len(rows) - len(bad), len(bad)))
+    return 0 if not bad else 1
+
+
 def main(what: str, argv: List[str]) -> int:
     if what == "selftest-smoke":
         return smoke()
@@ -233,5 +275,7 @@ def main(what: str, argv: List[str]) -> int:
         return mutants(argv)
     if what == "selftest-seeded":
         return seeded(argv)
+    if what == "selftest-benign":
+        return benign(argv)
     print("unknown selftest %s" % what)
     return 2
